@@ -76,6 +76,10 @@ def run(ctx):
             ok = ok and ((b'*' in bs) == bool(fl & WILDCARDS))
             det += ', pattern %r' % bs
         rep.check(r2, ok, key, det, pf.loc(bi))
+    # the dispatcher matches bytes exactly (no case folding): signatures are byte strings, 'get /' is not 'GET /'
+    nw = pf.calls(r'Smack::new$')
+    cs = [const_val(pf.argv(b, 1)) for b, _ in nw]
+    rep.check(r2, cs == [0], 'matcher:case-sensitive', 'Smack::new(.., nocase=%s) for the protocol matcher (required: one matcher, nocase=false)' % cs, pf.loc(nw[0][0]) if nw else '')
     lit = {p[3].split('::')[-1]: bytes.fromhex(p[1]) for (_, p, _, _) in pats if isinstance(p, tuple) and p[0] == 'bytes' and len(p) > 3 and p[3]}
     want = {'SSH_PATTERN_CLIENT_PROTOCOL_2': b'SSH-2.0', 'SSH_PATTERN_CLIENT_PROTOCOL_1': b'SSH-1.99', 'GHOST_PATTERN_SIGNATURE': b'Gh0st',
             'SMB1_PATTERN_MAGIC': b'\x00\x00**\xffSMB', 'SMB2_PATTERN_MAGIC': b'\x00\x00**\xfeSMB'}
@@ -106,6 +110,8 @@ def run(ctx):
     rep.check(r3, not bad, 'dispatch-slice', 'dispatch id = %s ; foreign inputs: %s' % (short(dexpr)[:160], bad), rp.loc(dbi))
 
     r4 = rep.rule('C10-R4', 'matcher state handling: over TCP the state is loaded from the flow, advanced from payload offset 0 and stored back, and the id is sticky; datagrams start from BASE_STATE at offset 0 and try the end anchor only after NO_MATCH', floor=5)
+    wp = walker_resume_problems(F)
+    rep.check(r4, not wp, 'walker:resumes-from-saved-state', 'Smack::search_next continues from the saved row / cursor and never re-arms the begin anchors on a new segment: %s' % (wp or 'ok'))
     sn = rp.calls(r'Smack::search_next$')
     tcp_sn = [b for b, t in sn if 'smack_state' in short(rp.argv(b, 1))]
     udp_sn = [b for b, t in sn if b not in tcp_sn]
@@ -128,6 +134,23 @@ def run(ctx):
         # sticky id: search only when proto_id == PROTO_NONE; id written from search result or reset to NONE in the default arm
         g = eq_edges(rp, lambda a, c: isinstance(peel(a), tuple) and peel(a)[0] == 'entry' and Fn.path_of(peel(a)[1])[-1:] == [('f', 'proto_id')] and const_val(c) == 0)
         rep.check(r4, bool(g) and not rp.must_pass(g, [b]), 'tcp:sticky-id', 'the matcher runs only while proto_id == PROTO_NONE: %s' % (bool(g) and not rp.must_pass(g, [b])), rp.loc(b))
+        # ... and an id that selects no responder (signature not complete yet / NO_MATCH) is not kept: on the default
+        # arm of the dispatch the flow's id goes back to PROTO_NONE, so the next segment continues the match
+        oth = [s_ for (s_, v_) in edges if v_ is None]
+        resets = []
+        for bi2 in (dominated(rp, oth[0]) if oth else ()):
+            for i2, s2 in enumerate(rp.blocks[bi2]['stmts']):
+                fl = [p['f'] for p in s2['lhs']['p'] if isinstance(p, dict) and 'f' in p]
+                if fl[-1:] == ['proto_id'] and const_val(rp.rvalue(s2['rv'], (bi2, i2))) == 0:
+                    resets.append(bi2)
+        okr = bool(resets)
+        if okr:
+            # on every path through the default arm with a control block
+            r_ = rp.reachable(oth[0], removed_blocks=resets)
+            tcb_none = rp.gate_edges(lambda d, v, vals: isinstance(d, tuple) and d[0] == 'discr' and any(y == ('param', 4) for y in walk(d)) and ((v is None and vals == [1]) or v == 0))
+            r_ = rp.reachable(oth[0], removed_blocks=resets, removed_edges=tcb_none)
+            okr = not any(x in r_ for x in rp.return_blocks())
+        rep.check(r4, okr, 'tcp:undecided-keeps-matching', 'default arm of the dispatch resets the flow id to PROTO_NONE on every path with a control block: %s' % okr, rp.loc(oth[0]) if oth else '')
         ub = udp_sn[0]
         rep.check(r4, const_val(rp.argv(ub, 1)) == 0 and peel(rp.argv(ub, 2)) == ('param', 1) and const_val(rp.argv(ub, 3)) == 0, 'udp:fresh-state', 'search_next(BASE_STATE, data, 0): %s' % [short(rp.argv(ub, i)) for i in (1, 2, 3)], rp.loc(ub))
         # TCP/datagram split on tcb
